@@ -621,3 +621,22 @@ Definition run_edgeX (c : ((list (str * str) * list ((Z * Z) * list (str * Z))) 
                  forallb (fun s => match queue s with [] => true | _ => false end) (srcs st2) in
   VL [VB (edgeX_hyps tm gs its); VL (map enc_frame (frames o2)); VB drained;
       VL (map (fun g => enc_frame (frame_ofX (frameE tm) g)) gs)].
+
+(* 'addr;*' : executable hypotheses and runner (correspondence family "edgeS") *)
+Definition edgeS_hyps (gs : list group) (its : list ritem) : bool :=
+  forallb group_wfb gs && ids_incb MSG_ID_INITIAL_PREV gs && fedbX SubEverything (xstream allparts gs) its.
+
+Theorem edgeS_lossless_checked gs cid ll its :
+  edgeS_hyps gs its = true ->
+  exists k, frames (snd (rrun Repaired (init_receiver cid false ll [cX SubEverything]) its)) = map (frame_ofX frameS) (firstn k gs).
+Proof.
+  unfold edgeS_hyps. intro H. apply andb_true_iff in H as [H H3]. apply andb_true_iff in H as [H1 H2].
+  apply edgeS_lossless; [|apply ids_incb_sound; exact H2|apply fedbX_sound; exact H3].
+  rewrite Forall_forall. intros g Hg. apply group_wfb_sound. rewrite forallb_forall in H1. apply H1. exact Hg.
+Qed.
+
+Definition run_edgeS (c : (list ((Z * Z) * list (str * Z)) * bool) * list ritem) : val :=
+  let '((gl, ll), its) := c in
+  let gs := map mk_group gl in
+  let '(st2, o2) := rrun Repaired (init_receiver 7 false ll [cX SubEverything]) its in
+  VL [VB (edgeS_hyps gs its); VL (map enc_frame (frames o2)); VL (map (fun g => enc_frame (frame_ofX frameS g)) gs)].
